@@ -679,6 +679,152 @@ Section WarcProofs.
       simpl. rewrite IH1. exact H1.
     - inversion H; subst recs. destruct HR as [H1 H2]. subst ov. rewrite H2. split; [reflexivity|constructor].
   Qed.
+
+  (* ------------------------------------------------------------ termination on every input *)
+  Lemma find_nl_bounds l : forall i j, find_nl l i = Some j -> (i <= j < i + length l)%nat.
+  Proof.
+    induction l as [|b l IH]; intros i j H; [discriminate|].
+    simpl in H. destruct (b =? 10).
+    - inversion H; subst. simpl. lia.
+    - apply IH in H. simpl. lia.
+  Qed.
+
+  Lemma find_from_bounds out s j : (s <= length out)%nat -> find_from out s = Some j -> (s <= j < length out)%nat.
+  Proof.
+    intros Hs H. unfold find_from in H. apply find_nl_bounds in H. rewrite skipn_length in H. lia.
+  Qed.
+
+  Lemma hline_total : forall fuel rs out consumed nstart, rinv rs ->
+    (length (rem rs) < fuel)%nat -> (nstart <= length out)%nat ->
+    match hline fuel rs out consumed nstart with
+    | LineOk _ line c out' rs' =>
+        out' ++ rem rs' = out ++ rem rs /\ rinv rs' /\ (nstart < c <= length out')%nat /\
+        (length (rem rs') <= length (rem rs))%nat
+    | LineEnd _ rs' => out = [] /\ rem rs = []
+    | LineErr _ e => e <> WHang
+    end.
+  Proof.
+    induction fuel as [|fuel IH]; intros rs out consumed nstart Hi Hf Hn; [lia|].
+    cbn [WarcDefs.hline].
+    destruct (find_from out nstart) as [nl|] eqn:EF.
+    - apply find_from_bounds in EF; [|exact Hn]. repeat split; auto; lia.
+    - destruct (rread_spec rs warc_kRead Hi kread_pos) as [got [rs' [HR [Hrem [_ [Hz Hi']]]]]].
+      unfold WarcDefs.read_more. rewrite HR.
+      destruct got as [|g got].
+      + destruct out; [|discriminate]. split; [reflexivity|]. apply Hz. reflexivity.
+      + assert (Hlt : (length (rem rs') < fuel)%nat) by (rewrite Hrem, app_length in Hf; simpl in Hf; lia).
+        assert (Hn' : (length out <= length (out ++ g :: got))%nat) by (rewrite app_length; lia).
+        specialize (IH rs' (out ++ g :: got) consumed (length out) Hi' Hlt Hn').
+        destruct (hline fuel rs' (out ++ g :: got) consumed (length out)) as [line c out' rs''|rs''|e]; auto.
+        * destruct IH as [H1 [H2 [H3 H4]]]. split; [rewrite H1, <- app_assoc, <- Hrem; reflexivity|].
+          split; [exact H2|]. split; [lia|]. rewrite Hrem, app_length. lia.
+        * destruct IH as [H1 _]. destruct out; discriminate.
+  Qed.
+
+  Lemma header_total : forall fuel lfuel rs out consumed line seen len0, rinv rs ->
+    (consumed <= length out)%nat -> (length (out ++ rem rs) - consumed < fuel)%nat ->
+    (length (rem rs) < lfuel)%nat ->
+    match header_loop fuel lfuel rs out consumed line seen len0 with
+    | HdrOk _ rs' out' c len => out' ++ rem rs' = out ++ rem rs /\ rinv rs' /\ (length (rem rs') <= length (rem rs))%nat
+    | HdrErr _ e => e <> WHang
+    end.
+  Proof.
+    induction fuel as [|fuel IH]; intros lfuel rs out consumed line seen len0 Hi Hc Hf Hlf; [lia|].
+    destruct line as [|l0 line]; cbn [WarcDefs.header_loop].
+    - destruct seen; [auto|discriminate].
+    - pose proof (hline_total lfuel rs out consumed consumed Hi Hlf Hc) as HL.
+      destruct (hline lfuel rs out consumed consumed) as [line' c out' rs'|rs'|e]; [|discriminate|exact HL].
+      destruct HL as [HL1 [HL2 [HL3 HL4]]].
+      assert (Hsz : (length out' <= length (out ++ rem rs))%nat) by (rewrite <- HL1, app_length; lia).
+      assert (Hf' : (length (out' ++ rem rs') - c < fuel)%nat) by (rewrite HL1; lia).
+      assert (Hlf' : (length (rem rs') < lfuel)%nat) by lia.
+      assert (Hc' : (c <= length out')%nat) by lia.
+      destruct (is_content_length line').
+      + destruct seen; [discriminate|].
+        destruct (strtoll (skipn (consumed + length warc_cl_name) out')) as [v used].
+        destruct ((warc_reject_nodigit && Nat.eqb used 0) || negb (Nat.eqb used (length line' - length warc_cl_name))); [discriminate|].
+        destruct (warc_reject_negative && (v <? 0)); [discriminate|].
+        specialize (IH lfuel rs' out' c line' true v HL2 Hc' Hf' Hlf').
+        destruct (header_loop fuel lfuel rs' out' c line' true v) as [rs2 out2 c2 len2|e2]; auto.
+        destruct IH as [H1 [H2 H3]]. split; [rewrite H1; exact HL1|]. split; [exact H2|lia].
+      + specialize (IH lfuel rs' out' c line' seen len0 HL2 Hc' Hf' Hlf').
+        destruct (header_loop fuel lfuel rs' out' c line' seen len0) as [rs2 out2 c2 len2|e2]; auto.
+        destruct IH as [H1 [H2 H3]]. split; [rewrite H1; exact HL1|]. split; [exact H2|lia].
+  Qed.
+
+  Lemma read_exact_total : forall fuel rs out total, rinv rs -> Z.of_nat (length out) <= total ->
+    (length (rem rs) < fuel)%nat ->
+    match read_exact fuel rs out total with
+    | inl (rec, rs') => rec ++ rem rs' = out ++ rem rs /\ rinv rs'
+    | inr e => e <> WHang
+    end.
+  Proof.
+    induction fuel as [|fuel IH]; intros rs out total Hi Hle Hf; [lia|].
+    cbn [WarcDefs.read_exact].
+    destruct (Z.of_nat (length out) =? total) eqn:E; [auto|].
+    assert (Hn : (0 < Z.to_N (total - Z.of_nat (length out)))%N) by lia.
+    destruct (rread_spec rs _ Hi Hn) as [got [rs' [HR [Hrem [Hlen [_ Hi']]]]]].
+    rewrite HR. destruct got as [|g got]; [discriminate|].
+    assert (Hle' : Z.of_nat (length (out ++ g :: got)) <= total).
+    { rewrite app_length. unfold len in Hlen. lia. }
+    assert (Hf' : (length (rem rs') < fuel)%nat) by (rewrite Hrem, app_length in Hf; simpl in Hf; lia).
+    specialize (IH rs' (out ++ g :: got) total Hi' Hle' Hf').
+    destruct (read_exact fuel rs' (out ++ g :: got) total) as [[rec rs3]|e]; auto.
+    destruct IH as [H1 H2]. split; [|exact H2]. rewrite H1, <- app_assoc, <- Hrem. reflexivity.
+  Qed.
+
+  Lemma warc_read_total fuel rs ov : rinv rs -> (length (ov ++ rem rs) + 1 < fuel)%nat ->
+    match warc_read fuel rs ov with
+    | RecOk _ rec rs' ov' => rec ++ ov' ++ rem rs' = ov ++ rem rs /\ rinv rs' /\ ends_with_trailer rec
+    | RecEnd _ => ov = [] /\ rem rs = []
+    | RecErr _ e => e <> WHang
+    end.
+  Proof.
+    intros Hi Hf. rewrite app_length in Hf. unfold WarcDefs.warc_read.
+    pose proof (hline_total fuel rs ov 0 0 Hi ltac:(lia) ltac:(lia)) as HL.
+    destruct (hline fuel rs ov 0 0) as [line c out1 rs1|rs1|e]; auto.
+    destruct HL as [HL1 [HL2 [HL3 HL4]]].
+    destruct (negb (list_eqb line warc_version)); [discriminate|].
+    assert (Hlen1 : length (out1 ++ rem rs1) = (length ov + length (rem rs))%nat) by (rewrite HL1, app_length; reflexivity).
+    pose proof (header_total fuel fuel rs1 out1 c line false 0 HL2 ltac:(lia) ltac:(lia) ltac:(lia)) as HH.
+    destruct (header_loop fuel fuel rs1 out1 c line false 0) as [rs2 out2 c2 len|e]; auto.
+    destruct HH as [HH1 [HH2 HH3]].
+    set (total := (Z.of_nat c2 + len mod size_max + Z.of_N warc_trailer_len) mod size_max).
+    destruct (overhang_test total (Z.of_nat (length out2))) eqn:Elt.
+    - destruct (list_eqb (skipn (length (firstn (Z.to_nat total) out2) - N.to_nat warc_trailer_len) (firstn (Z.to_nat total) out2)) warc_trailer) eqn:Et; [|discriminate].
+      split; [|split; [exact HH2|apply trailer_check; exact Et]].
+      rewrite app_assoc, firstn_skipn. rewrite HH1. exact HL1.
+    - destruct (total >=? alloc_limit); [discriminate|].
+      assert (Hge : Z.of_nat (length out2) <= total) by (unfold overhang_test in Elt; destruct warc_overhang_le; lia).
+      pose proof (read_exact_total fuel rs2 out2 total HH2 Hge ltac:(lia)) as HX.
+      destruct (read_exact fuel rs2 out2 total) as [[rec rs3]|e]; auto.
+      destruct HX as [HX1 HX2].
+      destruct (list_eqb (skipn (length rec - N.to_nat warc_trailer_len) rec) warc_trailer) eqn:Et; [|discriminate].
+      split; [|split; [exact HX2|apply trailer_check; exact Et]].
+      simpl. rewrite HX1, HH1. exact HL1.
+  Qed.
+
+  (* C17: on EVERY stream, from every source obeying the contract, reading ends:
+     either all records (then C17_success_is_exact applies) or an error that is not
+     fuel exhaustion.  With success_is_exact: broken framing is an error, not a hang
+     and not a silent resynchronisation. *)
+  Theorem never_hangs_proof : forall n fuel rs ov, rinv rs ->
+    (length (ov ++ rem rs) < n)%nat -> (length (ov ++ rem rs) + 1 < fuel)%nat ->
+    match warc_read_all n fuel rs ov with
+    | AllOk _ => True
+    | AllErr e _ => e <> WHang
+    end.
+  Proof.
+    induction n as [|n IH]; intros fuel rs ov Hi Hn Hf; [lia|].
+    cbn [WarcDefs.warc_read_all].
+    pose proof (warc_read_total fuel rs ov Hi Hf) as HR.
+    destruct (warc_read fuel rs ov) as [rec rs' ov'| |e]; auto.
+    destruct HR as [H1 [H2 [x Hx]]].
+    assert (Hlen : (length (ov' ++ rem rs') + 4 <= length (ov ++ rem rs))%nat).
+    { rewrite <- H1. rewrite Hx. rewrite !app_length. change (length warc_trailer) with 4%nat. lia. }
+    specialize (IH fuel rs' ov' H2 ltac:(lia) ltac:(lia)).
+    destruct (warc_read_all n fuel rs' ov'); auto.
+  Qed.
 End WarcProofs.
 
 (* ------------------------------------------------------------ the real byte source
